@@ -10,3 +10,9 @@ package middleware
 //@ nomod
 //@ prop C01 C16
 //@ ensures[scope-from-context] ret(Value) == nil ==> result == nil
+
+// ------------------------------------------------------------------ C01 / C16: who writes the request scope
+//@ prop C01
+//@ scan[scope-session-writers] field-writers RequestScope.Session pkg/middleware.(*storedSessionLoader).loadSession$1 pkg/middleware.(*jwtSessionLoader).loadSession$1 pkg/middleware.loadBasicAuthSession$2
+//@ prop C16
+//@ scan[reverse-proxy-flag-writers] field-writers RequestScope.ReverseProxy pkg/middleware.NewScope$1$1
